@@ -617,20 +617,30 @@ static void cmd_release(int sid)
 {
 	dses_t *s = &S[sid];
 	if (s->role == 2 && s->configured) cmd_gettab(sid, 1);
+	/* decoded source symbols in library-allocated buffers belong to the application from now on: note them before
+	 * the release, so that a library that frees them itself is seen (the application would free them again) */
+	unsigned char *mine = NULL; long libfreed = 0;
+	if (s->role == 2 && s->lasttab_valid) {
+		mine = calloc(s->k ? s->k : 1, 1);
+		for (uint32_t i = 0; i < s->k; i++) { void *p = s->lasttab[i]; int pi; if (p && !strcmp(origin_of(s, p, i, &pi), "lib")) mine[i] = 1; }
+	}
 	LIB_ENTER(sid);
 	of_status_t st = of_release_codec_instance(s->ses);
 	LIB_LEAVE();
 	s->released = 1;
 	/* the application now frees what the API documents as its own */
 	long appowned = 0;
-	if (s->role == 2 && s->lasttab_valid)
+	if (mine)
 		for (uint32_t i = 0; i < s->k; i++) {
-			void *p = s->lasttab[i]; int pi;
-			if (p && !strcmp(origin_of(s, p, i, &pi), "lib")) { free(p); appowned++; }
+			void *p = s->lasttab[i];
+			if (!mine[i]) continue;
+			if (led_find(p) < 0) { libfreed++; continue; }      /* already freed by the library: freeing it again would be a double free */
+			free(p); appowned++;
 		}
+	free(mine);
 	if (s->enc_tab)
 		for (uint32_t i = s->k; i < s->n; i++) if (s->enc_libslot[i] && s->enc_tab[i]) { free(s->enc_tab[i]); appowned++; }
-	jb_printf("{\"e\":\"Release\",\"x\":%ld,\"s\":%d,\"appowned\":%ld,\"leak\":%ld,\"leak_bytes\":%ld", g_exec, sid, appowned, live_for(sid), live_bytes_for(sid));
+	jb_printf("{\"e\":\"Release\",\"x\":%ld,\"s\":%d,\"appowned\":%ld,\"libfreed\":%ld,\"leak\":%ld,\"leak_bytes\":%ld", g_exec, sid, appowned, libfreed, live_for(sid), live_bytes_for(sid));
 	emit_common(s, sid, st);
 	jb_printf("}\n"); jb_flush();
 	/* forget leaked blocks so that they are reported once */
